@@ -175,7 +175,7 @@ func NewNode(ctx context.Context, t *testing.T, fsm *FSManager, name string, gen
 	n.VM = v
 	n.Snow = snow.NewVM("v0.0.1", v)
 	chainID := hashing.ComputeHash256Array(genesisBytes)
-	snowCtx := snowtest.Context(t, chainID)
+	snowCtx := snowtest.Context(TB(t), chainID)
 	snowCtx.Log = logging.NoLog{}
 	snowCtx.ChainDataDir = n.Dir
 	snowCtx.NodeID = ids.BuildTestNodeID([]byte(name))
